@@ -10,10 +10,14 @@ from collections import OrderedDict
 
 
 class Loop(object):
-    def __init__(self, invariants=(), modifies=(), locals=None, note='', steps=()):
+    def __init__(self, invariants=(), modifies=(), locals=None, note='', steps=(), raise_steps=None):
         self.invariants = list(invariants)
         # step contract: two-state clauses over one arbitrary iteration; old(e) is e at the start of the iteration
         self.steps = list(steps)
+        # raise_steps: {ExcClass: [clauses]}: two-state clauses that must hold when an arbitrary iteration leaves the loop by
+        # raising an instance of ExcClass (old(e) = e at the start of that iteration); a class raised by the body and not
+        # listed is unconstrained here (the function's `raises` clause still applies)
+        self.raise_steps = dict(raise_steps or {})
         self.modifies = list(modifies)       # location specs havocked by the loop cut
         self.locals = dict(locals or {})     # types of locals first assigned inside the loop
         self.note = note
